@@ -415,6 +415,9 @@ def check(ctx):
     ab = abort_episodes(ctx.rng) if ctx.thorough() else abort_episodes(ctx.rng)[:3]
     C.Differential(ctx, binary, timeout=600, confirm=2).check_oracle_only(ab, abort_oracle, "wire-abort")
     ctx.cov["backend_reset_mid_answer_episodes"] = len(ab)
+    # response headers the backend sends under the names of the identifier features are response headers like any other
+    from . import c16
+    C.Differential(ctx, binary, timeout=600).check_oracle_only(c16.own_id_episodes(ctx.rng), c16.own_id_oracle, "wire-own-id")
     nx = sum(len(e) - 2 for e in eps) // 2
     scripts = set(l.split()[8] for e in eps for l in e if l.startswith("px x via"))
     ctx.cov.update({
